@@ -87,6 +87,7 @@ def run(chk):
 
     # ---- C10.retention ----------------------------------------------------------------------------------
     retention(chk, repo)
+    fold_limit(chk, repo)
 
     # ---- C10.limits (= C03.rp, rp2, rp3) -------------------------------------------------------------------
     hp = repo.func(MOD, "HttpParser.feed_data")
@@ -212,3 +213,24 @@ def retention(chk, repo, rule="C10.retention"):
                                   f"input-derived bytes are retained in self.{attr} without a limit check before the next exit or at re-entry: memory held for an incomplete line/header block is unbounded",
                                   path_condition=norm.fmt_cnf(cl)[:600])
     chk.expect_count(rule, n_sites, 9, "stores into the retention buffers")
+
+
+def fold_limit(chk, repo, rule="C10.fold"):
+    """Obsolete line folding (lax mode) joins continuation lines into one field value: the field-size limit must be applied to the
+    accumulated size, i.e. the compared quantity is carried and increased across the iterations of the folding loop."""
+    hp = repo.func(MOD, "HeadersParser.parse_headers")
+    loops = [w for w in ast.walk(hp.node) if isinstance(w, ast.While) and norm.raw(w.test) == "continuation"]
+    if not loops:
+        raise AnalysisError("C10.fold: the `while continuation` folding loop of HeadersParser.parse_headers was not found")
+    loop = loops[0]
+    rz = [r for r, _c in K.raises_in(loop) if any(l is loop for l in K.loop_ancestors(r))]
+    tests = [i for i in ast.walk(loop) if isinstance(i, ast.If) and any(r in list(ast.walk(i)) for r in rz) and "max_field_size" in norm.raw(i.test)]
+    if not tests:
+        chk.violation(rule, loop, "while continuation: ...", "if <accumulated size> > self.max_field_size: raise LineTooLong", "a folded field value is accumulated without a size limit inside the folding loop")
+        return
+    ok, seen = K.cumulative_in_loop(loop, tests[0].test)
+    if ok:
+        chk.ok(rule, tests[0], f"the folding loop compares a running total with max_field_size (`{norm.raw(tests[0].test)}`)")
+    else:
+        chk.violation(rule, tests[0], norm.raw(tests[0].test), "a quantity increased in every iteration (running total of the folded value)",
+                      "the size test inside the folding loop looks at one continuation line at a time: a field folded over many lines grows to about max_headers x max_field_size although every single test passes")
